@@ -78,7 +78,7 @@ def expr(n):
         return "%s.attr" % k[0]
     if c == "Subscript":
         return {"index": "%s[%s]" % (k[0], k[1] if len(k) > 1 else ""), "tuple": "%s[%s, %s]" % (k[0], k[1], k[2]) if len(k) > 2 else "",
-                "ellipsis": "%s[...]" % k[0]}[a]
+                "ellipsis": "%s[...]" % k[0], "one_tuple": "%s[%s,]" % (k[0], k[1] if len(k) > 1 else "")}[a]
     if c == "SubscriptSlice":
         low, up, st = ("l" in a), ("u" in a), ("s" in a)
         return "%s[%s:%s%s]" % (k[0], k[1] if low else "", k[1] if up else "", (":" + k[1]) if st else "")
@@ -120,7 +120,7 @@ def stmt(n):
     e = expr(xs[0]) if xs else "a"
     if c == "Assign":
         return {"single": "x = %s", "multi": "x = y = %s", "tuple_target": "x, y = %s", "starred_target": "x, *y = %s", "attr_target": "x.f = %s",
-                "subscript_target": "x[0] = %s"}[a] % e + "\n"
+                "subscript_target": "x[0] = %s", "one_tuple_value": "x = %s,", "one_tuple_target": "x, = %s", "one_tuple_aug": "x += %s,"}[a] % e + "\n"
     if c == "AugAssign":
         return "x %s= %s\n" % (BIN[a], e)
     if c == "AnnAssign":
@@ -138,7 +138,7 @@ def stmt(n):
         return {"plain": "while %s:\n    pass\n", "else": "while %s:\n    pass\nelse:\n    x = 1\n",
                 "break_continue": "while %s:\n    if b:\n        break\n    continue\n"}[a] % e
     if c == "For":
-        return {"plain": "for i in %s:\n    pass\n", "else": "for i in %s:\n    pass\nelse:\n    x = 1\n", "tuple_target": "for i, j in %s:\n    pass\n",
+        return {"plain": "for i in %s:\n    pass\n", "else": "for i in %s:\n    pass\nelse:\n    x = 1\n", "tuple_target": "for i, j in %s:\n    pass\n", "one_tuple_target": "for i, in %s:\n    pass\n",
                 "async": "async def f():\n    async for i in %s:\n        pass\n"}[a] % e
     if c == "With":
         return {"plain": "with %s:\n    pass\n", "as": "with %s as w:\n    pass\n", "two": "with %s as w, b:\n    pass\n",
@@ -167,7 +167,8 @@ def stmt(n):
                 "global": "def f():\n    global g1, g2\n    g1 = %s\n", "nonlocal": "def f():\n    v = 1\n    def g():\n        nonlocal v\n        v = %s\n    return g\n",
                 "yield": "def f():\n    x = yield %s\n    yield\n", "yield_from": "def f():\n    yield from %s\n", "await": "async def f():\n    x = await %s\n",
                 "return_none": "def f():\n    x = %s\n    return\n", "docstring": "def f():\n    'doc'\n    return %s\n",
-                "nested": "def f():\n    def g(p=1):\n        return %s\n    return g\n", "returns_expr": "def f(p, q=2):\n    return %s\n"}[a] % e
+                "nested": "def f():\n    def g(p=1):\n        return %s\n    return g\n", "return_one_tuple": "def f():\n    return %s,\n",
+                "yield_one_tuple": "def f():\n    yield %s,\n", "returns_expr": "def f(p, q=2):\n    return %s\n"}[a] % e
     if c == "ClassDef":
         return {"plain": "class K:\n    x = %s\n", "bases": "class K(B1, B2):\n    x = %s\n", "keywords": "class K(B1, metaclass=M):\n    x = %s\n",
                 "decorator": "@d\nclass K:\n    x = %s\n", "method": "class K:\n    def m(self, p=1):\n        return %s\n"}[a] % e
